@@ -100,7 +100,8 @@ func zoom(f objective, alpha_lo, alpha_hi, y0, ylo, yhi, g0, glo float64, maxEva
       return alpha_j, nil
     }
 
-    if yj > y0 + c1*alpha_j*g0 || yj >= ylo {
+    // a NaN value does not satisfy the sufficient decrease condition
+    if math.IsNaN(yj) || yj > y0 + c1*alpha_j*g0 || yj >= ylo {
       alpha_hi = alpha_j
       yhi      = yj
     } else {
@@ -134,6 +135,10 @@ func lineSearch(f objective,
   if err != nil {
     return 0.0, err
   }
+  if math.IsNaN(y0) || math.IsNaN(g0) {
+    // the Wolfe conditions cannot be evaluated
+    return 0.0, fmt.Errorf("line search failed: NaN value at initial position")
+  }
 
   // variables at step i
   yi, gi, alpha_i := y0, g0, 0.0
@@ -157,7 +162,8 @@ func lineSearch(f objective,
       return alpha_j, nil
     }
 
-    if yj > y0 + c1*alpha_j*g0 || (yj >= yi && i > 0) {
+    // a NaN value does not satisfy the sufficient decrease condition
+    if math.IsNaN(yj) || yj > y0 + c1*alpha_j*g0 || (yj >= yi && i > 0) {
       return zoom(f, alpha_i, alpha_j, y0, yi, yj, g0, gi, maxEval-i, hook)
     }
     if math.Abs(gj) <= -c2*g0 {
